@@ -40,6 +40,24 @@ CRASH_SITES = ("net.before", "open-w:tmp.archive", "write:tmp.archive", "close:t
 WRITE_CLASS = ("rename", "open-w", "write", "fdwrite", "close", "flush", "remove", "rmdir", "mkdir", "truncate", "link", "symlink",
                "copyfile", "move", "copytree", "CRASH")
 STEP_CAP = 4000
+
+
+def _fatal_errors():
+    # what a real transfer meets besides URLError/TimeoutError: the statement says nothing about retrying these, so
+    # the loader may do either - but whatever it does, the cache must be sound afterwards
+    import http.client
+    import socket
+    import ssl
+    return (lambda: ConnectionResetError("simulated: connection reset by peer"),
+            lambda: http.client.IncompleteRead(b"simulated", 1000),
+            lambda: http.client.RemoteDisconnected("simulated: remote end closed connection without response"),
+            lambda: ssl.SSLError("simulated: decryption failed or bad record mac"),
+            lambda: socket.gaierror(-3, "simulated: temporary failure in name resolution"),
+            lambda: MemoryError("simulated"),
+            lambda: KeyboardInterrupt())
+
+
+FATAL_ERRORS = _fatal_errors()
 CALM_STEP_BUDGET = 200
 
 
@@ -292,6 +310,8 @@ def gen_plan(st, n_retries, fault_num, enabled):
         att = {"kind": kind, "latency": st.pick((0.01, 0.2, 2.0, 30.0, 120.0), "latency")}
         if kind != "ok":
             att["partial"] = st.draw(0, 7, "partial")
+        if kind == "fatal":
+            att["exc"] = st.draw(0, len(FATAL_ERRORS) - 1, "error-kind")
         att["chunks"] = st.draw(1, 3, "chunks")
         plan.append(att)
         if kind not in TRANSIENT and kind not in ("httperror", "too_short"):
@@ -519,7 +539,7 @@ class Run:
             exc = urllib.error.ContentTooShortError("simulated: retrieval incomplete", (filename, {}))
             partial = max(partial, 1)
         elif kind == "fatal":
-            exc = ConnectionResetError("simulated: connection reset by peer")
+            exc = FATAL_ERRORS[att.get("exc", 0) % len(FATAL_ERRORS)]()
         elif kind == "corrupt_flip":
             body = self.corrupt_body(ds, "flip")
         elif kind == "corrupt_trunc":
